@@ -111,6 +111,14 @@ def replay_power(data):
 REPLAY = {"inv": replay_invariants, "pow": replay_power}
 
 
+def _replay_sht(data):
+    from . import c07
+    return c07.replay_sht(data)
+
+
+REPLAY["sht"] = _replay_sht
+
+
 def _radicand(ex, w):
     if isinstance(w, Sym) and z3.is_const(w.t) and w.t.decl().name() in ex.defs:
         return ex.defs[w.t.decl().name()][1].arg(1)
@@ -129,8 +137,9 @@ def run(ctx):
     ctx.bound("N invariants and power spectrum: l_max <= %d, all complex coefficient vectors; P invariants: l_max <= %d, all coefficient vectors, "
               "rotations generated by R_z(atan 4/3) and R_y(pi/2)" % (LN, LP))
     ctx.assume("exact real/complex arithmetic; Clebsch-Gordan values taken as the exact algebraic numbers the kernel's formula denotes (sqrt exact)")
+    ctx.stub("invariants / descriptors of a sampled function rest on the transform grid being exact for the degree (ntheta >= l_max + 1): C07's grid rule, run here as a dependency section")
     ctx.out_of_scope("P invariants beyond l_max = %d; floating-point cancellation in the factorial formula for large l" % LP)
-    ctx.parallel_sections([("N", lambda c: part_N(c, LN)), ("power", lambda c: part_power(c, LN)), ("P", lambda c: part_P(c, LP)), ("wrapper", part_wrapper)])
+    ctx.parallel_sections([("N", lambda c: part_N(c, LN)), ("power", lambda c: part_power(c, LN)), ("P", lambda c: part_P(c, LP)), ("wrapper", part_wrapper)] + __import__('verif.props.c07', fromlist=['x']).dependency_sections())
 
 
 def part_wrapper(ctx):
